@@ -208,6 +208,22 @@ func c09Shapes() []Shape {
 		a := withImports(Prog(hashMarker(cl[0], 0), Fn("F", []ParamDecl{Pm("v", TInt)}, []Type{TInt}, Ret(Op("*", ACall("b", "G", V("v")), N(3))))), Import{"b", "b.tsh"})
 		return withImports(Prog(Pr(ACall("a", "F", L(0)))), Import{"a", "a.tsh"}), map[string]*Program{"a.tsh": a, "b.tsh": b}
 	}, false)
+	add("chain-leaf-calls-private-functions", 2, func(cl []string) (*Program, map[string]*Program) {
+		b := Prog(hashMarker(cl[1], 1), Fn("double", []ParamDecl{Pm("v", TInt)}, []Type{TInt}, Ret(Op("*", V("v"), N(2)))),
+			Fn("inner", []ParamDecl{Pm("v", TInt)}, []Type{TInt}, Ret(Op("+", Call("double", V("v")), N(1)))),
+			Fn("Quad", []ParamDecl{Pm("v", TInt)}, []Type{TInt}, Ret(Call("inner", Call("double", V("v"))))),
+			Fn("Never", nil, []Type{TInt}, Ret(Call("inner", N(1)))))
+		a := withImports(Prog(hashMarker(cl[0], 0), Fn("local", []ParamDecl{Pm("v", TInt)}, []Type{TInt}, Ret(Op("+", V("v"), N(1)))),
+			Fn("Area", []ParamDecl{Pm("v", TInt)}, []Type{TInt}, Ret(Call("local", ACall("b", "Quad", V("v")))))), Import{"b", "b.tsh"})
+		return withImports(Prog(Pr(ACall("a", "Area", L(0)))), Import{"a", "a.tsh"}), map[string]*Program{"a.tsh": a, "b.tsh": b}
+	}, false)
+	add("chain-through-standard-library", 1, func(cl []string) (*Program, map[string]*Program) {
+		a := Prog(hashMarker(cl[0], 0),
+			Fn("Has", []ParamDecl{Pm("s", TString)}, []Type{TBool}, Ret(RawExpr{Text: "strings.Contains(s, \"b\")", Val: BoolLit{Val: true}})),
+			Fn("Parts", []ParamDecl{Pm("s", TString)}, []Type{TInt}, Ret(RawExpr{Text: "len(strings.Split(s, \",\"))", Val: IntLit{Marker: -1, Val: 3}})))
+		a.Imports = []Import{{"", "strings"}}
+		return withImports(Prog(Pr(ACall("a", "Has", S("abc")), ACall("a", "Parts", S("x,y,z")))), Import{"a", "a.tsh"}), map[string]*Program{"a.tsh": a}
+	}, false)
 	add("std-and-local", 1, func(cl []string) (*Program, map[string]*Program) {
 		p := Prog(Pr(ACall("h", "Hello", L(0))), Def("u", RawExpr{Text: "strings.Contains(\"abc\", \"b\")", Val: BoolLit{Val: true}}), Pr(V("u")))
 		p.Imports = []Import{{"", "strings"}, {"h", "h.tsh"}}
